@@ -48,9 +48,12 @@ class After(Condition):
         return Before(self.date)
 
     def _ensure_trigger(self):
-        if not self._scheduled:
-            self._scheduled = True
-            __USIM_STATE__.loop.schedule(self._async_trigger(), at=self.date)
+        # a trigger only exists in the loop in which it was scheduled;
+        # the condition may be used again by another simulation
+        loop = __USIM_STATE__.loop
+        if self._scheduled is not loop:
+            self._scheduled = loop
+            loop.schedule(self._async_trigger(), at=self.date)
 
     # we cannot schedule __trigger__ directly, since it is not async
     async def _async_trigger(self):
